@@ -176,6 +176,8 @@ pub struct Exec {
     pub displaced_vols: Vec<RawVolume>,
     pub displaced_dirs: Vec<RawDirectory>,
     pub displaced_files: Vec<RawFile>,
+    /// buffer of the last `read` that returned an error
+    pub last_read_buf: Vec<u8>,
 }
 
 fn slot<T: Copy>(v: &[Option<T>], i: usize) -> Option<T> {
@@ -198,7 +200,7 @@ pub fn hnum<T: std::fmt::Debug>(h: &T) -> u32 {
 
 impl Exec {
     pub fn new(vm: Box<dyn Vm>, disk: Disk, clock: Clock) -> Exec {
-        Exec { vm, disk, clock, vols: vec![], dirs: vec![], files: vec![], stale_vols: vec![], stale_dirs: vec![], stale_files: vec![], op_id: 0, issued: vec![], displaced_vols: vec![], displaced_dirs: vec![], displaced_files: vec![] }
+        Exec { vm, disk, clock, vols: vec![], dirs: vec![], files: vec![], stale_vols: vec![], stale_dirs: vec![], stale_files: vec![], op_id: 0, issued: vec![], displaced_vols: vec![], displaced_dirs: vec![], displaced_files: vec![], last_read_buf: vec![] }
     }
 
     pub fn open_counts(&self) -> (usize, usize, usize) {
@@ -359,7 +361,11 @@ impl Exec {
                         }
                         OpRes::Ok(Out::Bytes(b))
                     }
-                    Err(e) => OpRes::Err(ek(&e)),
+                    Err(e) => {
+                        // what the failed call left in the caller's buffer
+                        self.last_read_buf = b;
+                        OpRes::Err(ek(&e))
+                    }
                 }
             }
             Op::Write { fl, fs, tag, len } => {
